@@ -1,5 +1,506 @@
 //! C20: geo-types / geo-traits conversions.
+use crate::cases::Case;
 use crate::gen::*;
+use crate::oracles::*;
+use crate::proto::*;
 use crate::Out;
+use geo_traits::{CoordTrait, PointTrait};
+use geo_types as gt;
+use shapefile::*;
+use std::convert::TryFrom;
+use std::panic::{catch_unwind, AssertUnwindSafe};
 
-pub fn cases_geo(_tier: &str, _rng: &mut Rng, _stats: &mut Stats, _out: &mut Out) {}
+type C = (u64, u64);
+
+/// geo-types values as bit patterns
+#[derive(Clone, Debug, PartialEq)]
+pub enum G {
+    Point(C),
+    Line(C, C),
+    LineString(Vec<C>),
+    MultiPoint(Vec<C>),
+    MultiLineString(Vec<Vec<C>>),
+    Polygon(Vec<C>, Vec<Vec<C>>),
+    MultiPolygon(Vec<(Vec<C>, Vec<Vec<C>>)>),
+    Collection,
+    Rect,
+    Triangle,
+}
+
+fn show_cs(cs: &[C], s: &mut String) {
+    s.push_str(&cs.len().to_string());
+    for c in cs {
+        s.push_str(&format!(" {} {}", hx(c.0), hx(c.1)));
+    }
+}
+fn show_poly(p: &(Vec<C>, Vec<Vec<C>>), s: &mut String) {
+    show_cs(&p.0, s);
+    s.push_str(&format!(" {}", p.1.len()));
+    for i in &p.1 {
+        s.push(' ');
+        show_cs(i, s);
+    }
+}
+pub fn show_g(g: &G) -> String {
+    let mut s = String::new();
+    match g {
+        G::Point(c) => s += &format!("gpoint {} {}", hx(c.0), hx(c.1)),
+        G::Line(a, b) => s += &format!("gline {} {} {} {}", hx(a.0), hx(a.1), hx(b.0), hx(b.1)),
+        G::LineString(cs) => {
+            s += "gls ";
+            show_cs(cs, &mut s)
+        }
+        G::MultiPoint(cs) => {
+            s += "gmpoint ";
+            show_cs(cs, &mut s)
+        }
+        G::MultiLineString(ls) => {
+            s += &format!("gmls {}", ls.len());
+            for l in ls {
+                s.push(' ');
+                show_cs(l, &mut s);
+            }
+        }
+        G::Polygon(e, i) => {
+            s += "gpoly ";
+            show_poly(&(e.clone(), i.clone()), &mut s)
+        }
+        G::MultiPolygon(ps) => {
+            s += &format!("gmpoly {}", ps.len());
+            for p in ps {
+                s.push(' ');
+                show_poly(p, &mut s);
+            }
+        }
+        G::Collection => s += "gcoll",
+        G::Rect => s += "grect",
+        G::Triangle => s += "gtri",
+    }
+    s
+}
+
+fn coord(c: &C) -> gt::Coord<f64> {
+    gt::Coord { x: f(c.0), y: f(c.1) }
+}
+fn ls(cs: &[C]) -> gt::LineString<f64> {
+    gt::LineString(cs.iter().map(coord).collect())
+}
+fn of_ls(l: &gt::LineString<f64>) -> Vec<C> {
+    l.0.iter().map(|c| (c.x.to_bits(), c.y.to_bits())).collect()
+}
+fn of_poly(p: &gt::Polygon<f64>) -> (Vec<C>, Vec<Vec<C>>) {
+    (of_ls(p.exterior()), p.interiors().iter().map(of_ls).collect())
+}
+
+pub fn to_geometry(g: &G) -> gt::Geometry<f64> {
+    match g {
+        G::Point(c) => gt::Geometry::Point(gt::Point(coord(c))),
+        G::Line(a, b) => gt::Geometry::Line(gt::Line::new(coord(a), coord(b))),
+        G::LineString(cs) => gt::Geometry::LineString(ls(cs)),
+        G::MultiPoint(cs) => gt::Geometry::MultiPoint(gt::MultiPoint(cs.iter().map(|c| gt::Point(coord(c))).collect())),
+        G::MultiLineString(l) => gt::Geometry::MultiLineString(gt::MultiLineString(l.iter().map(|x| ls(x)).collect())),
+        G::Polygon(e, i) => gt::Geometry::Polygon(gt::Polygon::new(ls(e), i.iter().map(|x| ls(x)).collect())),
+        G::MultiPolygon(ps) => gt::Geometry::MultiPolygon(gt::MultiPolygon(ps.iter().map(|(e, i)| gt::Polygon::new(ls(e), i.iter().map(|x| ls(x)).collect())).collect())),
+        G::Collection => gt::Geometry::GeometryCollection(gt::GeometryCollection(vec![])),
+        G::Rect => gt::Geometry::Rect(gt::Rect::new(gt::Coord { x: 0.0, y: 0.0 }, gt::Coord { x: 1.0, y: 1.0 })),
+        G::Triangle => gt::Geometry::Triangle(gt::Triangle::new(gt::Coord { x: 0.0, y: 0.0 }, gt::Coord { x: 1.0, y: 0.0 }, gt::Coord { x: 0.0, y: 1.0 })),
+    }
+}
+pub fn of_geometry(g: &gt::Geometry<f64>) -> G {
+    match g {
+        gt::Geometry::Point(p) => G::Point((p.x().to_bits(), p.y().to_bits())),
+        gt::Geometry::Line(l) => G::Line((l.start.x.to_bits(), l.start.y.to_bits()), (l.end.x.to_bits(), l.end.y.to_bits())),
+        gt::Geometry::LineString(l) => G::LineString(of_ls(l)),
+        gt::Geometry::MultiPoint(m) => G::MultiPoint(m.0.iter().map(|p| (p.x().to_bits(), p.y().to_bits())).collect()),
+        gt::Geometry::MultiLineString(m) => G::MultiLineString(m.0.iter().map(of_ls).collect()),
+        gt::Geometry::Polygon(p) => {
+            let (e, i) = of_poly(p);
+            G::Polygon(e, i)
+        }
+        gt::Geometry::MultiPolygon(m) => G::MultiPolygon(m.0.iter().map(of_poly).collect()),
+        gt::Geometry::GeometryCollection(_) => G::Collection,
+        gt::Geometry::Rect(_) => G::Rect,
+        gt::Geometry::Triangle(_) => G::Triangle,
+    }
+}
+
+/// shape -> geometry with the real crate
+pub fn v_s2g(c: &Ctor) -> String {
+    let a = match build(c) {
+        Ok(a) => a,
+        Err(_) => return "panic".into(),
+    };
+    let shape = any_to_shape(&a);
+    match catch_unwind(AssertUnwindSafe(move || gt::Geometry::<f64>::try_from(shape))) {
+        Ok(Ok(g)) => show_g(&of_geometry(&g)),
+        Ok(Err(_)) => "err".into(),
+        Err(_) => "panic".into(),
+    }
+}
+/// geometry -> shape with the real crate
+pub fn v_g2s(g: &G) -> String {
+    let geom = to_geometry(g);
+    match catch_unwind(AssertUnwindSafe(move || Shape::try_from(geom))) {
+        Ok(Ok(s)) => show_sv(&s.to_sv()),
+        Ok(Err(_)) => "err".into(),
+        Err(_) => "panic".into(),
+    }
+}
+/// geo-traits view of a point: dimension count and every coordinate below it
+pub fn v_dims(d: Dim, p: &P) -> String {
+    let r = catch_unwind(AssertUnwindSafe(|| {
+        let (n, vals): (usize, Vec<f64>) = match d {
+            Dim::Xy => {
+                let q = mk_p(p);
+                let n = PointTrait::dim(&q).size();
+                (n, (0..n).map(|i| CoordTrait::nth_or_panic(&q, i)).collect())
+            }
+            Dim::Xym => {
+                let q = mk_pm(p);
+                let n = PointTrait::dim(&q).size();
+                (n, (0..n).map(|i| CoordTrait::nth_or_panic(&q, i)).collect())
+            }
+            Dim::Xyzm => {
+                let q = mk_pz(p);
+                let n = PointTrait::dim(&q).size();
+                (n, (0..n).map(|i| CoordTrait::nth_or_panic(&q, i)).collect())
+            }
+        };
+        let mut s = format!("dim {}", n);
+        for v in vals {
+            s += &format!(" {}", hx(v.to_bits()));
+        }
+        s
+    }));
+    r.unwrap_or_else(|_| "panic".into())
+}
+
+// ------------------------------------------------------------------ oracle
+fn xy(ps: &[P]) -> Vec<C> {
+    ps.iter().map(|p| (p.x, p.y)).collect()
+}
+fn same_up_to_reversal(a: &[C], b: &[C]) -> bool {
+    let mut r = b.to_vec();
+    r.reverse();
+    a == b || a == &r[..]
+}
+
+pub fn oracle_c20_shape(c: &Ctor) -> Verdict {
+    let a = match build(c) {
+        Ok(a) => a,
+        Err(_) => return Verdict::pass(),
+    };
+    let sv = sv_of_any(&a);
+    let got = v_s2g(c);
+    let fail = |sig: &str, msg: String| Verdict::fail(&format!("geo-{}", sig), msg);
+    match &sv {
+        SV::Point(_, p) => {
+            if got != show_g(&G::Point((p.x, p.y))) {
+                return fail("point", format!("point converts to {}", got));
+            }
+        }
+        SV::Multipoint(_, _, ps) => {
+            if got != show_g(&G::MultiPoint(xy(ps))) {
+                return fail("multipoint", "multipoint coordinates/order not preserved".into());
+            }
+        }
+        SV::Polyline(_, _, pp) => {
+            if got != show_g(&G::MultiLineString(pp.iter().map(|p| xy(p)).collect())) {
+                return fail("polyline", "polyline coordinates/grouping not preserved".into());
+            }
+        }
+        SV::Polygon(_, _, rr) => {
+            // each outer ring opens a polygon, following inner rings are its holes (rings are closed already)
+            let mut want: Vec<(Vec<C>, Vec<Vec<C>>)> = vec![];
+            for (r, ps) in rr {
+                match r {
+                    Role::Outer => want.push((xy(ps), vec![])),
+                    Role::Inner => match want.last_mut() {
+                        Some(p) if rr[0].0 == Role::Outer => p.1.push(xy(ps)),
+                        _ => want.push((vec![], vec![xy(ps)])),
+                    },
+                }
+            }
+            if rr.first().map(|r| r.0) == Some(Role::Outer) && got != show_g(&G::MultiPolygon(want)) {
+                return fail("polygon-nesting", format!("outer-first polygon converts to {}", &got[..got.len().min(200)]));
+            }
+        }
+        SV::Multipatch(_, pp) => {
+            let has_tri = pp.iter().any(|(k, _)| !k.is_ring());
+            if has_tri && got != "err" {
+                return fail("strip-fan-accepted", format!("multipatch with strip/fan converts to {}", &got[..got.len().min(80)]));
+            }
+            if !has_tri && (got == "err" || got == "panic") {
+                return fail("ring-multipatch-refused", got);
+            }
+        }
+        SV::Null => {}
+    }
+    if got == "panic" {
+        return fail("panic", "conversion panicked".into());
+    }
+    // and back: the original 2-D shape (for 2-D inputs of the point, multipoint, polyline, outer-first polygon families)
+    let in_scope = match &sv {
+        SV::Point(..) | SV::Multipoint(..) | SV::Polyline(..) => true,
+        SV::Polygon(_, _, rr) => rr.first().map(|r| r.0) == Some(Role::Outer),
+        _ => false,
+    };
+    if c.dim() == Dim::Xy && in_scope {
+        let shape = any_to_shape(&a);
+        let back = catch_unwind(AssertUnwindSafe(|| gt::Geometry::<f64>::try_from(shape).ok().and_then(|g| Shape::try_from(g).ok())));
+        match (back, &sv) {
+            (Err(_), _) => return fail("roundtrip-panic", "shape -> geo -> shape panicked".into()),
+            (Ok(Some(b)), SV::Point(..)) | (Ok(Some(b)), SV::Multipoint(..)) | (Ok(Some(b)), SV::Polyline(..)) => {
+                if b.to_sv() != sv {
+                    return fail("roundtrip", "shape -> geo -> shape is not the identity".into());
+                }
+            }
+            (Ok(Some(b)), SV::Polygon(_, _, rr)) if rr.first().map(|r| r.0) == Some(Role::Outer) && rr.iter().all(|(_, ps)| matches!(exact_area2(ps), Some(a) if a != 0)) => {
+                if b.to_sv() != sv {
+                    return fail("roundtrip-polygon", "outer-first polygon -> geo -> polygon is not the identity".into());
+                }
+            }
+            _ => {}
+        }
+    }
+    Verdict::pass()
+}
+
+pub fn oracle_c20_geo(g: &G) -> Verdict {
+    let got = v_g2s(g);
+    let fail = |sig: &str, msg: String| Verdict::fail(&format!("geo-{}", sig), msg);
+    match g {
+        G::Collection | G::Rect | G::Triangle => {
+            return if got == "err" { Verdict::pass() } else { fail("refusal", format!("{} converts to {}", show_g(g), got)) };
+        }
+        _ => {}
+    }
+    if got == "panic" || got == "err" {
+        return fail("geo-to-shape", format!("{} -> {}", &show_g(g)[..show_g(g).len().min(120)], got));
+    }
+    // back to geo: same coordinates in the same grouping (as the multi-geometry), up to ring orientation
+    let geom = to_geometry(g);
+    let back = catch_unwind(AssertUnwindSafe(|| Shape::try_from(geom).ok().and_then(|s| gt::Geometry::<f64>::try_from(s).ok())));
+    let back = match back {
+        Ok(Some(b)) => of_geometry(&b),
+        _ => return fail("geo-roundtrip-fail", "geo -> shape -> geo failed".into()),
+    };
+    let closed = |cs: &Vec<C>| -> Vec<C> {
+        let mut v = cs.clone();
+        if let (Some(a), Some(b)) = (v.first().copied(), v.last().copied()) {
+            if !(f(a.0) == f(b.0) && f(a.1) == f(b.1)) {
+                v.push(a);
+            }
+        }
+        v
+    };
+    let ok = match (g, &back) {
+        (G::Point(c), G::Point(d)) => c == d,
+        (G::MultiPoint(a), G::MultiPoint(b)) => a == b,
+        (G::Line(a, b), G::MultiLineString(l)) => l.len() == 1 && l[0] == vec![*a, *b],
+        (G::LineString(a), G::MultiLineString(l)) => l.len() == 1 && &l[0] == a,
+        (G::MultiLineString(a), G::MultiLineString(b)) => a == b,
+        (G::Polygon(e, i), G::MultiPolygon(ps)) => {
+            let exact = std::iter::once(e).chain(i.iter()).all(|r| {
+                let pts: Vec<P> = closed(r).iter().map(|c| P::new(Dim::Xy, c.0, c.1, 0, 0)).collect();
+                matches!(exact_area2(&pts), Some(a) if a != 0)
+            });
+            !exact || (ps.len() == 1 && same_up_to_reversal(&closed(e), &ps[0].0) && ps[0].1.len() == i.len() && i.iter().zip(ps[0].1.iter()).all(|(x, y)| same_up_to_reversal(&closed(x), y)))
+        }
+        (G::MultiPolygon(a), G::MultiPolygon(b)) => {
+            let exact = a.iter().all(|(e, i)| {
+                std::iter::once(e).chain(i.iter()).all(|r| {
+                    let pts: Vec<P> = closed(r).iter().map(|c| P::new(Dim::Xy, c.0, c.1, 0, 0)).collect();
+                    matches!(exact_area2(&pts), Some(ar) if ar != 0)
+                })
+            });
+            !exact || (a.len() == b.len() && a.iter().zip(b.iter()).all(|((e, i), (e2, i2))| same_up_to_reversal(&closed(e), e2) && i.len() == i2.len() && i.iter().zip(i2.iter()).all(|(x, y)| same_up_to_reversal(&closed(x), y))))
+        }
+        _ => false,
+    };
+    if !ok {
+        return fail("geo-roundtrip", format!("{} came back as {}", &show_g(g)[..show_g(g).len().min(100)], &show_g(&back)[..show_g(&back).len().min(100)]));
+    }
+    Verdict::pass()
+}
+
+pub fn oracle_c20_dims(d: Dim, p: &P) -> Verdict {
+    let got = v_dims(d, p);
+    if got == "panic" {
+        return Verdict::fail("geo-traits-panic", format!("{} point with m={}: a coordinate below dim() cannot be read", d.name(), hx(p.m)));
+    }
+    // every reported coordinate is the matching field
+    let toks: Vec<&str> = got.split(' ').collect();
+    let n: usize = toks[1].parse().unwrap_or(0);
+    let fields = match d {
+        Dim::Xy => vec![p.x, p.y],
+        Dim::Xym => vec![p.x, p.y, p.m],
+        Dim::Xyzm => vec![p.x, p.y, p.z, p.m],
+    };
+    if n < 2 || n > fields.len() {
+        return Verdict::fail("geo-traits-dim", format!("dimension count {}", n));
+    }
+    for i in 0..n {
+        if toks[2 + i] != hx(fields[i]) {
+            return Verdict::fail("geo-traits-field", format!("coordinate {} is {} (field {})", i, toks[2 + i], hx(fields[i])));
+        }
+    }
+    Verdict::pass()
+}
+
+// ------------------------------------------------------------------ generation
+fn gen_cs(g: &mut Gen, n: usize, fl: Flavor) -> Vec<C> {
+    (0..n).map(|_| (g.coord(fl), g.coord(fl))).collect()
+}
+fn gen_ring(g: &mut Gen, fl: Flavor) -> Vec<C> {
+    let n = g.rng.range(3, 6);
+    let mut v = gen_cs(g, n, fl);
+    if g.rng.chance(1, 2) {
+        let f0 = v[0];
+        v.push(f0);
+    }
+    v
+}
+
+pub fn cases_geo(tier: &str, rng: &mut Rng, stats: &mut Stats, out: &mut Out) {
+    let n = if tier == "thorough" { 6000 } else { 320 };
+    for i in 0..n {
+        let mut g = Gen { rng, stats, max_parts: 4, max_points: 5 };
+        let fl = if i % 2 == 0 { Flavor::Exact } else { g.flavor() };
+        // shapes of every family and dimension -> geo
+        let (fam, d) = ALL13[i % 13];
+        let c = g.ctor(fam, d, fl, true);
+        let case = Case::Geo(GeoCase::S2G(c.clone()));
+        let (id, _) = out.case(&case);
+        out.verdict(&id, &crate::cases::show_case(&case), oracle_c20_shape(&c));
+        // geo -> shape
+        let geo = match i % 9 {
+            0 => G::Point((g.coord(fl), g.coord(fl))),
+            1 => G::Line((g.coord(fl), g.coord(fl)), (g.coord(fl), g.coord(fl))),
+            2 => {
+                let k = g.rng.range(2, 6);
+                G::LineString(gen_cs(&mut g, k, fl))
+            }
+            3 => {
+                let k = g.rng.range(1, 6);
+                G::MultiPoint(gen_cs(&mut g, k, fl))
+            }
+            4 => {
+                let k = g.rng.range(1, 3);
+                G::MultiLineString((0..k).map(|_| {
+                    let m = g.rng.range(2, 5);
+                    gen_cs(&mut g, m, fl)
+                }).collect())
+            }
+            5 => {
+                let k = g.rng.range(0, 2);
+                G::Polygon(gen_ring(&mut g, fl), (0..k).map(|_| gen_ring(&mut g, fl)).collect())
+            }
+            6 => {
+                let k = g.rng.range(1, 3);
+                G::MultiPolygon((0..k).map(|_| {
+                    let h = g.rng.range(0, 2);
+                    (gen_ring(&mut g, fl), (0..h).map(|_| gen_ring(&mut g, fl)).collect())
+                }).collect())
+            }
+            7 => G::Collection,
+            _ => {
+                if g.rng.chance(1, 2) {
+                    G::Rect
+                } else {
+                    G::Triangle
+                }
+            }
+        };
+        g.stats.hit(&format!("geo.{}", show_g(&geo).split(' ').next().unwrap()));
+        let case = Case::Geo(GeoCase::G2S(geo.clone()));
+        let (id, _) = out.case(&case);
+        out.verdict(&id, &crate::cases::show_case(&case), oracle_c20_geo(&geo));
+        // geo-traits dimensions over special measures
+        let d = Dim::ALL[i % 3];
+        let mut p = g.pt(d, Flavor::Special, true);
+        if i % 5 == 0 {
+            p.m = [NO_DATA_BITS, next_up(NO_DATA_BITS), next_down(NO_DATA_BITS), 0x7ff8_0000_0000_0000, 0xfff0_0000_0000_0000][(i / 5) % 5];
+        }
+        let case = Case::Geo(GeoCase::Dims(d, p));
+        let (id, _) = out.case(&case);
+        out.verdict(&id, &crate::cases::show_case(&case), oracle_c20_dims(d, &p));
+    }
+    // null shape is refused
+    let id = out.oracle_only_id();
+    let r = gt::Geometry::<f64>::try_from(Shape::NullShape);
+    out.verdict(&id, "geo null", if r.is_err() { Verdict::pass() } else { Verdict::fail("geo-null-accepted", "NullShape converted".into()) });
+}
+
+#[derive(Clone, Debug)]
+pub enum GeoCase {
+    S2G(Ctor),
+    G2S(G),
+    Dims(Dim, P),
+}
+
+pub fn show_geocase(c: &GeoCase) -> String {
+    match c {
+        GeoCase::S2G(c) => format!("geo s2g {}", show_ctor(c)),
+        GeoCase::G2S(g) => format!("geo g2s {}", show_g(g)),
+        GeoCase::Dims(d, p) => {
+            let mut s = format!("geo dims {} ", d.name());
+            show_pts(*d, std::slice::from_ref(p), &mut s);
+            s
+        }
+    }
+}
+pub fn run_geocase(c: &GeoCase) -> String {
+    match c {
+        GeoCase::S2G(c) => v_s2g(c),
+        GeoCase::G2S(g) => v_g2s(g),
+        GeoCase::Dims(d, p) => v_dims(*d, p),
+    }
+}
+
+fn parse_cs(t: &mut Toks) -> Option<Vec<C>> {
+    let n = t.nat()?;
+    (0..n).map(|_| Some((t.f64bits()?, t.f64bits()?))).collect()
+}
+fn parse_poly(t: &mut Toks) -> Option<(Vec<C>, Vec<Vec<C>>)> {
+    let e = parse_cs(t)?;
+    let k = t.nat()?;
+    let i = (0..k).map(|_| parse_cs(t)).collect::<Option<_>>()?;
+    Some((e, i))
+}
+pub fn parse_geocase(t: &mut Toks) -> Option<GeoCase> {
+    match t.next()? {
+        "s2g" => Some(GeoCase::S2G(t.ctor()?)),
+        "dims" => {
+            let d = t.dim()?;
+            let ps = t.pts(d)?;
+            Some(GeoCase::Dims(d, *ps.first()?))
+        }
+        "g2s" => {
+            let g = match t.next()? {
+                "gpoint" => G::Point((t.f64bits()?, t.f64bits()?)),
+                "gline" => G::Line((t.f64bits()?, t.f64bits()?), (t.f64bits()?, t.f64bits()?)),
+                "gls" => G::LineString(parse_cs(t)?),
+                "gmpoint" => G::MultiPoint(parse_cs(t)?),
+                "gmls" => {
+                    let n = t.nat()?;
+                    G::MultiLineString((0..n).map(|_| parse_cs(t)).collect::<Option<_>>()?)
+                }
+                "gpoly" => {
+                    let (e, i) = parse_poly(t)?;
+                    G::Polygon(e, i)
+                }
+                "gmpoly" => {
+                    let n = t.nat()?;
+                    G::MultiPolygon((0..n).map(|_| parse_poly(t)).collect::<Option<_>>()?)
+                }
+                "gcoll" => G::Collection,
+                "grect" => G::Rect,
+                "gtri" => G::Triangle,
+                _ => return None,
+            };
+            Some(GeoCase::G2S(g))
+        }
+        _ => None,
+    }
+}
